@@ -132,10 +132,16 @@ func genC16(c *Ctx) *c16Case {
 		k.msg = m
 		return k
 	}
-	k.tracks = c.Free("tracks", 7)
+	k.tracks = c.Free("tracks", 9)
 	k.firstTimes = c.Free("first_stop_times", 11)
 	k.nStops = c.Free("stop_time_updates", 3)
 	tu := &gtfsrt.TripUpdate{Trip: td, Vehicle: pre}
+	switch c.Free("trip_update_timestamp", 3) { // the stale rule compares with the FEED timestamp
+	case 1:
+		tu.Timestamp = u64p(k.ts - 1000)
+	case 2:
+		tu.Timestamp = u64p(k.ts + 1000)
+	}
 	for j := 0; j < k.nStops; j++ {
 		u := &gtfsrt.TripUpdate_StopTimeUpdate{StopId: sp(fmt.Sprintf("L0%dN", j+1))}
 		if j == 0 {
@@ -169,7 +175,17 @@ func genC16(c *Ctx) *c16Case {
 		} else {
 			u.Arrival = &gtfsrt.TripUpdate_StopTimeEvent{Time: cp2(int64(k.ts) - 500)} // later stops never matter
 		}
-		if k.tracks > 0 {
+		if k.tracks == 7 && j > 0 {
+			proto.SetExtension(u, gtfsrt.E_NyctStopTimeUpdate, &gtfsrt.NyctStopTimeUpdate{ActualTrack: sp(fmt.Sprintf("A%d", j))})
+		}
+		if k.tracks == 8 {
+			x := &gtfsrt.NyctStopTimeUpdate{}
+			if j > 0 {
+				x.ScheduledTrack = sp(fmt.Sprintf("S%d", j))
+			}
+			proto.SetExtension(u, gtfsrt.E_NyctStopTimeUpdate, x)
+		}
+		if k.tracks > 0 && k.tracks < 7 {
 			x := &gtfsrt.NyctStopTimeUpdate{}
 			if k.tracks == 1 || k.tracks == 3 {
 				x.ScheduledTrack = sp(fmt.Sprintf("S%d", j))
@@ -302,6 +318,14 @@ func c16Rules(c *Ctx) {
 				want = fmt.Sprintf("%q", fmt.Sprintf("A%d", j))
 			case 5, 6:
 				want = `""`
+			case 7:
+				if j > 0 {
+					want = fmt.Sprintf("%q", fmt.Sprintf("A%d", j))
+				}
+			case 8:
+				if j > 0 {
+					want = fmt.Sprintf("%q", fmt.Sprintf("S%d", j))
+				}
 			}
 			if got := fmtStrPtr(t.StopTimeUpdates[j].NyctTrack); got != want {
 				c.Fail("nyct:track", "%s: stop %d track %s, want %s", k, j, got, want)
@@ -566,7 +590,7 @@ func init() {
 	register(&Check{
 		ID:    "C16",
 		Level: "model_checking",
-		Rule: "(a) all 1 000 000 six-digit origin prefixes; (b) full product of entity kind x is_assigned x direction x train id x existing vehicle descriptor x trip-id kind x tracks x first-stop times (both sides of and equal to the feed timestamp) x stop-time count x header timestamp {set, absent, 0} x 4 option combinations; a stale unassigned trip update followed / preceded by plain and NYCT vehicle positions and a plain trip update; (c) transparency: route {M,J,-} x trip id {plain, two of the NYCT shape} x own start time x two stop ids over a 15-value alphabet x 4 options, and the rich C02 feed within 1 deviation x 4 options; " +
+		Rule: "(a) all 1 000 000 six-digit origin prefixes; (b) full product of entity kind x is_assigned x direction x train id x existing vehicle descriptor x trip-id kind x tracks x first-stop times (both sides of and equal to the feed timestamp) x stop-time count x header timestamp {set, absent, 0} x the trip update's own timestamp {absent, earlier, later}; tracks also: first stop without the NYCT stop-time extension (or with an empty one) and tracks at the later stops; x 4 option combinations; a stale unassigned trip update followed / preceded by plain and NYCT vehicle positions and a plain trip update; (c) transparency: route {M,J,-} x trip id {plain, two of the NYCT shape} x own start time x two stop ids over a 15-value alphabet x 4 options, and the rich C02 feed within 1 deviation x 4 options; " +
 			"non-trivial = distinct (message, options) pairs (origin prefixes below 600000); oracle = reference rules from the statement + differential against the extension-free parse",
 		Assumptions: []string{"direction is asserted for NORTH and SOUTH only", "the stale rule is not asserted when the first stop's departure is present with value 0 (indistinguishable from missing through proto2 getters)", "an assigned trip without a train id is not asserted to have a vehicle"},
 		Scenarios: func(tier string) []*Scenario {
